@@ -229,6 +229,14 @@ class LinkState(Attribute):
         instance.ls_attrs
         return instance
 
+    def pack_attribute(self, negotiated: Negotiated) -> Buffer:
+        """The TLVs as they were received: the attribute keeps its wire bytes.
+
+        There was none, so Attribute.pack_attribute raised NotImplementedError and a
+        collection holding a BGP-LS attribute could not be packed at all.
+        """
+        return self._attribute(bytes(self._packed))
+
     def json(self, compact: bool = False) -> str:
         """Output JSON for all TLVs. MERGE classes are grouped into arrays by JSON key."""
         from collections import defaultdict
